@@ -34,7 +34,7 @@ func GenerateWide(t *rapid.T, w WideOptions) Query {
 	var sb strings.Builder
 	maxClauses := 3
 	if w.Deep {
-		maxClauses = 6
+		maxClauses = 5
 	}
 	nclauses := 1 + max2(g.pick("wnclauses1", maxClauses), g.pick("wnclauses2", maxClauses-1))
 	whereDepth := func() int {
